@@ -270,8 +270,8 @@ def outervar_witness_program(fn_names, global_names):
 def coqchk(chk, module):
     """thorough tier: re-check the compiled property file and everything it depends on with the
     independent checker; records an obligation"""
-    if chk.tier != "thorough":
-        return
+    if chk.tier != "thorough" or "coqchk" in chk.extra:
+        return      # vlib.Check.prove already ran it for the property file
     with vlib.BuildLock():
         p = subprocess.run(["timeout", "1200", "coqchk", "-silent", "-o", "-Q", ".", "HyV", module],
                            cwd=vlib.COQ, capture_output=True, text=True)
